@@ -18,7 +18,7 @@ const B: u32 = 0x3C6586;
 fn level(t: Tier) -> Level {
     Level {
         category: "model_checking",
-        rule: if t.thorough() { "model EXPIRY: delete_after in {1,5,60,600} x {default,-U} x 10 refreshing formats x {no filter, -f}; actions F(A), burst(B) (12 frames in one run: forces the sweep), one(B), filtered-out frame of A, tick in {1 s, d-1 ms, d, d+1 ms}; all sequences to depth 8" } else { "model EXPIRY: delete_after in {1,5,60,600} x {default,-U} x 10 refreshing formats x {no filter, -f}; actions F(A), burst(B) (12 frames in one run: forces the sweep), one(B), filtered-out frame of A, tick in {1 s, d-1 ms, d, d+1 ms}; all sequences to depth 6" },
+        rule: if t.thorough() { "model EXPIRY: delete_after in {1,5,60,600} x {default,-U} x 10 refreshing formats x {no filter, -f} (+ 12 sets with the table drawn after every frame); actions F(A), burst(B) (12 frames in one run: forces the sweep), one(B), filtered-out frame of A, tick in {1 s, d-1 ms, d, d+1 ms}; all sequences to depth 8" } else { "model EXPIRY: delete_after in {1,5,60,600} x {default,-U} x 10 refreshing formats x {no filter, -f} (+ 12 sets with the table drawn after every frame); actions F(A), burst(B) (12 frames in one run: forces the sweep), one(B), filtered-out frame of A, tick in {1 s, d-1 ms, d, d+1 ms}; all sequences to depth 6" },
         assumptions: vec![
             "state = canonical table snapshot + reference age of the last accepted frame per address (history variable, so liveness is judged against the true history, not the implementation's stamps)".into(),
             "elapsed time is simulated by shifting every public time stamp of every row (frozen clock); the per-run sweep counter starts at 0, so a burst of 12 accepted frames is the worst case the statement allows".into(),
@@ -61,14 +61,19 @@ struct Params {
     upd: bool,
     fi: usize,
     filter: bool,
+    /// the table is drawn after every frame (-i '' --update=-1) instead of quiet
+    draw: bool,
 }
 
 impl Params {
     fn label(&self) -> String {
-        format!("d={} {} F={}{}", self.d, if self.upd { "-U" } else { "default" }, formats()[self.fi].0, if self.filter { " -f" } else { "" })
+        format!("d={} {} F={}{}{}", self.d, if self.upd { "-U" } else { "default" }, formats()[self.fi].0, if self.filter { " -f" } else { "" }, if self.draw { " draw" } else { "" })
     }
     fn opts(&self) -> Vec<String> {
         let mut o = vec!["-d".to_string(), self.d.to_string()];
+        if self.draw {
+            o.extend(["-i".to_string(), "".to_string(), "--update=-1".to_string(), "-c".to_string()]);
+        }
         if self.upd {
             o.push("-U".into());
         }
@@ -236,7 +241,10 @@ fn param_sets() -> Vec<Params> {
         for upd in [false, true] {
             for fi in 0..formats().len() {
                 for filter in [false, true] {
-                    v.push(Params { d, upd, fi, filter });
+                    v.push(Params { d, upd, fi, filter, draw: false });
+                }
+                if (d == 1 || d == 60) && matches!(fi, 0 | 4 | 8) {
+                    v.push(Params { d, upd, fi, filter: false, draw: true });
                 }
             }
         }
@@ -262,7 +270,7 @@ fn run_one(ctx: &mut Ctx, p: &Params, depth: usize) {
                 &format!("C12/{suffix}/{}", p.label()),
                 &names.join(" > "),
                 || format!("[{}] after [{}]: {msg}", p.label(), names.join(" > ")),
-                || json!({"d": p.d, "upd": p.upd, "fi": p.fi, "filter": p.filter, "path": path, "depth": depth}),
+                || json!({"d": p.d, "upd": p.upd, "fi": p.fi, "filter": p.filter, "draw": p.draw, "path": path, "depth": depth}),
             );
         }
     });
@@ -289,6 +297,7 @@ fn replay(ctx: &mut Ctx, case: &Value) {
         upd: case.get("upd").and_then(|x| x.as_bool()).unwrap_or(false),
         fi: case.get("fi").and_then(|x| x.as_u64()).unwrap_or(0) as usize,
         filter: case.get("filter").and_then(|x| x.as_bool()).unwrap_or(false),
+        draw: case.get("draw").and_then(|x| x.as_bool()).unwrap_or(false),
     };
     let depth = case.get("depth").and_then(|x| x.as_u64()).unwrap_or(5) as usize;
     let path: Vec<usize> = case.get("path").and_then(|p| p.as_array()).map(|a| a.iter().filter_map(|x| x.as_u64().map(|v| v as usize)).collect()).unwrap_or_default();
